@@ -342,7 +342,9 @@ func families(n int) []family {
 	}
 	{
 		f := family{name: "list:outputs elements"}
-		for _, elems := range [][]string{{"file::a", "file::b"}, {"file::a,file::b"}, {"file::a"}, {"file::b"}, {"dir::a", "file::b"}, {"dir::a,file::b"}, {"file::a", "dir::b"}} {
+		for _, elems := range [][]string{{"file::a", "file::b"}, {"file::a,file::b"}, {"file::a"}, {"file::b"}, {"dir::a", "file::b"}, {"dir::a,file::b"}, {"file::a", "dir::b"},
+			// lists WITHOUT any file output (C09-r6m1 recorded the element lengths of file outputs only)
+			{"dir::a", "dir::b"}, {"dir::a,dir::b"}, {"docker::a", "docker::b"}, {"docker::a,docker::b"}, {"dir::a", "docker::b"}, {"dir::a,docker::b"}, {"docker::a", "dir::b"}, {"docker::a,dir::b"}} {
 			s := base()
 			s.Outputs = elems
 			f.states = append(f.states, s)
